@@ -50,12 +50,68 @@ def entry_lines(k, ncoeff, sym=True):
     return [head, l2] + rows
 
 
+def table_order_rule(ck, prog, run):
+    """_get_index_and_dt finds the entry of a time by binary search (np.searchsorted) over the span ends, which is only right when
+    the table rows are in ascending TMID order.  The constructor is the one place that establishes this: whatever order the
+    entries arrive in, what it hands to the table base class must be ascending in TMID."""
+    from ..symeval import Frame
+    init = prog.func("PhasePredictor.__init__")
+    gid = prog.func("PhasePredictor._get_index_and_dt")
+    run.touched(init)
+    uses_search = any(isinstance(n, ast.Call) and norm(n.func).endswith("searchsorted") for n in ast.walk(gid.node))
+    ck.same("R2", gid.where, "np.searchsorted(span_ends, times)", "(premise) entries are located by binary search over the span ends", uses_search,
+            found=None if uses_search else "no searchsorted call: the order rule below may not be needed any more", nontrivial=False)
+    if not uses_search:
+        return
+    ec, ci = prog.cls("PolycoEntry"), prog.cls("PhasePredictor")
+    orders = [(10, 20, 30, 40), (10, 30, 20, 40), (20, 10, 40, 30), (40, 30, 20, 10), (30, 40, 10, 20), (20, 10), (10,)]
+    n = 0
+    for order in orders:
+        ents = [ObjV(ec, {"psr": StrV("J0000"), "obs": StrV("ao"), "freq": Num(327 * 10**6 * Hz, kind="quantity"), "tmid": Num(sp.Integer(t) * 5400 / Hz, kind="time"),
+                          "span": Num(5400 / Hz, kind="quantity"), "rphase": Num(sp.Symbol(f"r{t}", integer=True)), "poly": StrV(f"polynomial of entry {t}")})
+                for t in order]
+        got = {}
+
+        class _Stop(Exception):
+            pass
+
+        def ov(ev_, args, kwargs, node, fr, fn=None, got=got):
+            got["data"] = args[0] if args else kwargs.get("data")
+            raise _Stop()
+        ev = ck.evaluator()
+        ev.overrides["builtins.object.__init__"] = ov
+        tag = f"PhasePredictor(entries with TMID order {list(order)})"
+        try:
+            ev.call(init, [ListV(ents)], {}, self_val=ObjV(ci, {}))
+        except _Stop:
+            pass
+        except (Raised, Unsupported) as e:
+            ck.unk("R2", init.where, tag, "the constructor evaluates up to the table base class", str(e)[:200])
+            continue
+        data = got.get("data")
+        if not isinstance(data, ListV) or not all(isinstance(d_, DictV) and "tmid" in d_.d for d_ in data.items):
+            ck.unk("R2", init.where, tag, "the constructor hands a list of per-entry dicts to the table base class", repr(data)[:160])
+            continue
+        tm = [sp.simplify(d_.d["tmid"].expr * Hz / 5400) for d_ in data.items]
+        later_sort = [c for st in init.node.body for c in ast.walk(st) if isinstance(st, ast.Expr) and isinstance(c, ast.Call) and norm(c.func) == "self.sort"
+                      and any(isinstance(k_, ast.Constant) and k_.value == "tmid" for a_ in c.args for k_ in ast.walk(a_))]
+        if tm != sorted(order) and sorted(tm) == sorted(order) and later_sort:
+            ck.same("R2", init.where, tag, "the table is put into ascending TMID order by an unconditional self.sort('tmid') after the rows are stored", True, nontrivial=True)
+            n += 1
+            continue
+        ck.same("R2", init.where, tag, "the rows handed to the table are all the entries, in ascending TMID order (what the binary search over span ends relies on)",
+                tm == sorted(order), found=f"row order {tm}", expected=str(sorted(order)), nontrivial=True)
+        n += 1
+    run.floor("R2", "entry orders pushed through the constructor", n, 6)
+
+
 def check(run, prog):
     run.explanation = EXPLANATION
     run.assumptions += ["numpy.polynomial.Polynomial(domain=[a,b]) maps [a,b] linearly onto [-1,1] (API table)", "tempo polyco layout as in the docstring of from_polyco"]
     ck = Checker(run, prog)
     r1(ck, prog, run)
     r2(ck, prog, run)
+    table_order_rule(ck, prog, run)
     r3(ck, prog, run)
     r4(ck, prog, run)
     r5(ck, prog, run)
